@@ -8,59 +8,59 @@ CHECKS = {
  "C01": dict(engine="E1 seq", cat="model_checking", ref="6 C01",
    technique="explicit exhaustive enumeration of environment-answer sequences on the real retry loop (stateless DFS), spec monitor + differential fresh-vs-used object",
    text="Every (configuration, entry point) cell of a finite lattice (max_attempts<=3/4, per-class table, UNKNOWN cap, strategy table) is run on the real sync and async retry loops for every outcome sequence over 17 outcome kinds; a monitor derived from the statement counts invocations and retries per class; second calls on a used policy are compared with a fresh one.",
-   note="attempt_timeout_s=None; bounds: max_attempts<=3 (4 thorough), listed limit values; virtual clock; classifier stubs deterministic"),
+   note="bounds: max_attempts<=3/4, listed limit values; virtual clock; attempt_timeout_s through an owned one-worker executor (sync) and a virtual event loop (async); sugar entry points, overlapping and re-entrant calls on one policy object included"),
 }
 CHECKS.update({
  "C02": dict(engine="E1 seq", cat="model_checking", ref="6 C02",
    technique="exhaustive enumeration of run timings (durations, strategy answers, overshoot) on a virtual monotonic clock, wall-clock jumps as deviations; spec monitor + differential steady-vs-jumping wall clock",
    text="For deadlines of 2-4 ticks every combination of attempt outcome, duration, strategy answer and sleeper overshoot up to max_attempts=3 is run on the real loops; the monitor checks on the owned monotonic timeline that no attempt begins after the deadline, no requested sleep exceeds the remaining time, total sleep <= deadline and late failures are not retried; wall-clock reads may jump by +/-1e9 s and the run must not change.",
-   note="attempt_timeout_s=None; tick resolution 0.125 s (library rounds to microseconds); sleeper overshoot >= 0"),
+   note="tick resolution 0.125 s (library rounds to microseconds); sleeper overshoot >= 0; attempt_timeout_s modelled (owned executor / virtual loop); callbacks other than the operation and the sleeper take no time in this property"),
  "C03": dict(engine="E1 seq", cat="model_checking", ref="6 C03",
    technique="exhaustive outcome sequences x deviation-bounded environment answers on the real retry loop; monitor recomputes the set of holding stop conditions from the observed history",
    text="Configuration lattice (caps, strategy tables, deadline, budget fill) x all outcome sequences x abort polls, handler decisions, durations and overshoot as bounded deviations; at every failed attempt the monitor derives which stop conditions hold and requires: no retry event/token/handler/sleep when one holds, a further attempt when none can hold, and a reported stop reason that is one of the holding conditions.",
-   note="attempt_timeout_s=None; budget/window and post-sleep deadline boundaries are don't-cares; deviation bound 1 quick / 2 thorough"),
+   note="budget/window and post-sleep deadline boundaries are don't-cares; deviation bound 1 quick / 2 thorough; abort modelled both as poll answers and as a flag raised by the environment; shared budget with a second consumer; attempt_timeout_s modelled"),
  "C04": dict(engine="E1 seq", cat="model_checking", ref="6 C04",
    technique="exhaustive mixed exception/result outcome sequences x deviation-bounded stop reasons on 8 call-style entry points; object-identity oracle",
    text="call() through Retry, Policy, RetryPolicy, context managers and async twins for every outcome sequence mixing exception and result failures and every stop reason; the returned object must be the successful attempt's own object, the raised exception the last attempt's own object with a traceback ending at its raise site, and RetryExhaustedError fields must describe the final attempt.",
-   note="attempt_timeout_s=None; aborted and cancellation-type endings judged by C13"),
+   note="aborted and cancellation-type endings judged by C13; result classifier also in one-shot mode; same exception object re-raised; None results; attribute-configured wrappers; attempt_timeout_s modelled"),
  "C05": dict(engine="E1 seq", cat="model_checking", ref="6 C05",
    technique="exhaustive enumeration of strategy tables, class sequences and strategy answers (NaN, inf, negative, beyond remaining) on the real loop; exact expected delay on a dyadic time lattice",
    text="For each strategy table (default / per-class / both, context or legacy signature) and every class sequence and strategy answer, the monitor checks that exactly the designated strategy is called once per granted retry with the true attempt number, the classifier's own Classification object, the previously applied delay, the remaining time and the cause, and that the sanitised, capped delay is what events, handler, before_sleep, sleeper and next_sleep_s carry.",
-   note="attempt_timeout_s=None; max_attempts 3 (4 thorough); values on the 0.125 s lattice"),
+   note="max_attempts 3 (4 thorough); values on the 0.125 s lattice; strategy signatures (ctx), (attempt, klass, prev) and (ctx, a=.., b=..); slow sleep handler; attempt_timeout_s modelled"),
  "C11": dict(engine="E1 seq", cat="model_checking", ref="6 C11",
    technique="exhaustive outcome sequences x deviation-bounded stop reasons x single callback faults on 8 execute-style entry points; outcome-field oracle derived from the trace",
    text="execute() through Retry, Policy (with and without retry), RetryPolicy and async twins: ok/value/stop_reason/attempts/last_class/cause/last_exception/last_result/next_sleep_s must describe the final attempt; only cancellation-type exceptions, nested RetryExhaustedError and the caller's strategy/classifier/sleeper errors may propagate.",
-   note="attempt_timeout_s=None; abort between a failure and its processing is a documented don't-care; stop_reason unchecked without retry component"),
+   note="abort between a failure and its processing is a documented don't-care; stop_reason unchecked without retry component; attempt_timeout_s modelled incl. a hung attempt keeping the single worker busy"),
 
  "C08": dict(engine="E1 seq + E3 coro", cat="fault_enumeration", ref="6 C08",
    technique="exhaustive single-fault (thorough: double-fault) injection at every callback invocation, every operation ending and every coroutine suspension point of real policy calls; spy breaker + functional probe oracle",
    text="For 12 entry paths and both admitting breaker states (closed, half-open probe) every way an admitted call can end is enumerated: each operation ending at each attempt, each callback raising at each invocation, and CancelledError/KeyboardInterrupt/SystemExit/close() at each await. After the call the spy breaker must have a record and, once recovery_timeout_s has elapsed, the next allow() must be admitted.",
-   note="attempt_timeout_s=None; max_attempts 2 (3 thorough await family); coroutines driven by send/throw/close"),
+   note="max_attempts 2 (3 thorough await family); coroutines driven by send/throw/close and as Tasks on a virtual event loop (Task.cancel between any two iterations, with and without attempt_timeout_s); breaker re-pointed or attached by attribute assignment"),
  "C09": dict(engine="E1 seq", cat="model_checking", ref="6 C09",
    technique="exhaustive outcome sequences x deviation-bounded stop reasons x call sequences on a logging subclass of the real CircuitBreaker; per-call record oracle",
    text="Policy/AsyncPolicy call/execute with and without retry: for every outcome sequence and stop reason and for sequences of calls sharing one breaker, each admitted call must make exactly one record after its last invocation: success iff a value was delivered, failure(K) with the final failure's class iff retries stopped on a failure or deferral, cancel iff aborted/cancelled; rejected calls none.",
-   note="attempt_timeout_s=None; unclassified endings accept any single record; pre-flight abort of a retry-less policy is judged under C07"),
+   note="unclassified endings accept any single record; pre-flight abort of a retry-less policy is judged under C07; re-entrant calls through the same Policy from inside callbacks"),
  "C13": dict(engine="E1 seq + E3 coro", cat="model_checking", ref="6 C13",
    technique="exhaustive abort-poll vectors x outcome sequences x cancellation-type exceptions from operation and sleeper; cancellation injected at every coroutine suspension point; structural trace oracle",
    text="Every first-True poll index, every attempt or sleep at which KeyboardInterrupt/SystemExit/CancelledError is raised, and every await point at which an async run is cancelled or closed: a poll must precede every attempt and every sleep, nothing is invoked after abort or cancellation, the same exception object leaves the call, the coroutine never suspends again.",
-   note="attempt_timeout_s=None; max_attempts 3 (4 thorough); 1 injection per run (2 thorough)"),
+   note="max_attempts 3 (4 thorough); 1 injection per run; async also as Tasks on a virtual event loop with attempt_timeout_s; abort also as an environment flag"),
  "C14": dict(engine="E1 seq", cat="model_checking", ref="6 C14",
    technique="exhaustive outcome sequences x deviation-bounded stop reasons with all three sinks attached; stream-shape and tag oracle; breaker events checked against the spy breaker's return values",
    text="Metric hook, log hook and timeline (captured or supplied) must receive the same sequence retry* terminal, the i-th retry with attempt=i and the applied delay, the terminal event matching the delivered stop reason and describing the final failure; every event returned by the breaker is emitted exactly once with attempt 0 and the breaker's state.",
-   note="attempt_timeout_s=None; attempt number of terminal events not checked; only normally-ending runs"),
+   note="attempt number of terminal events not checked; only normally-ending runs (runs with raising hooks included); breaker event tags compared with the breaker's actual state"),
  "C16": dict(engine="E1 seq", cat="model_checking", ref="6 C16",
    technique="exhaustive handler-decision sequences x 64 callback placements x sync/async/awaitable variants on real entry points; protocol oracle",
    text="All sequences of SLEEP/DEFER/ABORT over the retries of a run, all 64 placements of handler/before_sleep/sleeper at policy level, call level, both or neither with distinct stub identities: one consultation of the effective handler per granted retry with the computed delay; SLEEP => before_sleep then one sleeper call then the next attempt; DEFER => SCHEDULED with next_sleep_s; ABORT => ABORTED; call-level overrides policy-level.",
-   note="attempt_timeout_s=None; max_attempts 4 (5 thorough)"),
+   note="max_attempts 4 (5 thorough); awaitables that are coroutines and plain __await__ objects; slow handler with a deadline; raising before_sleep; attribute-configured wrappers"),
 
  "C12": dict(engine="E1 seq (differential)", cat="model_checking", ref="6 C12",
    technique="exhaustive answer-script tree on one entry point, every script replayed on the 23 other entry points under a structure-checking chooser; normalised-trace equality",
    text="Every environment-answer script of Retry.execute (all outcome sequences, other answers as bounded deviations) is replayed on each of 24 entry points (Retry, Policy, RetryPolicy, from_config, context managers, @retry, async twins): they must ask the same questions in the same order and produce the same invocations, strategy calls, sleeps, events, budget and breaker interactions; call and execute deliveries must correspond.",
-   note="attempt_timeout_s=None; classifier calls and attempt hooks are outside the compared trace (not listed by the statement); deviation bound 1 quick / 2 thorough"),
+   note="classifier calls and attempt hooks are outside the compared trace (not listed by the statement); deviation bound 1 quick / 2 thorough; 28 entry points incl. attribute-configured ones; attempt_timeout_s compared between the owned executor (sync) and the virtual loop (async)"),
  "C15": dict(engine="E1 seq (differential)", cat="fault_enumeration", ref="6 C15",
    technique="exhaustive hook-fault injection (hook x exception type x invocation index / always) replayed against the silent run of the same answer script; normalised-trace equality",
    text="For every baseline run and each of on_metric, on_log, before_sleep: raise at each single invocation index and always, for 7 exception types; the faulty run must equal the silent run in invocations, sleeps, delivered result, breaker and budget updates and in what the other hook and the timeline received.",
-   note="attempt_timeout_s=None; hooks raise subclasses of Exception; one faulty hook per run (two thorough)"),
+   note="hooks raise subclasses of Exception; one faulty hook per run (two thorough); hooks supplied as bound methods, functools.partial, callable objects, and by attribute assignment"),
 
  "C06": dict(engine="E2 state + E1 seq", cat="model_checking", ref="6 C06",
    technique="explicit-state BFS over operation histories of the real CircuitBreaker with canonical-state deduplication, compared transition by transition with a list-of-failures reference model (subset construction over boundary conventions)",
@@ -78,8 +78,8 @@ CHECKS.update({
 
  "C17": dict(engine="E4 thread", cat="model_checking", ref="6 C17",
    technique="stateless exploration of real thread interleavings under a controlled scheduler (sys.monitoring line/bytecode scheduling points, baton hand-off, cooperative model lock), iterative pre-emption bounding; brute-force linearizability against sequential runs of the real component",
-   text="22 small concurrent programs over one shared CircuitBreaker or Budget (racing probes, racing failures at the threshold, settle-vs-allow, racing consume at one token left, all-or-nothing consume(2), state/remaining reads, 3-thread variants, window-boundary variants): every interleaving with pre-emption before every source line up to the bound (complete for 2 threads x 1 op in thorough, plus bytecode granularity) must give per-thread results, final state and follow-up answers equal to some sequential order; deadlocks and exceptions under an interleaving are violations.",
-   note="clock constant during the concurrent phase; sequential consistency (GIL); pre-emption bound 2-3 quick; any threading.Lock/RLock attribute of the instance is replaced by a model lock"),
+   text="25 small concurrent programs (three with a thread that advances the clock) over one shared CircuitBreaker or Budget (racing probes, racing failures at the threshold, settle-vs-allow, racing consume at one token left, all-or-nothing consume(2), state/remaining reads, 3-thread variants, window-boundary variants): every interleaving with pre-emption before every source line up to the bound (complete for 2 threads x 1 op in thorough, plus bytecode granularity) must give per-thread results, final state and follow-up answers equal to some sequential order; deadlocks and exceptions under an interleaving are violations.",
+   note="the clock advances only through explicit tick operations of a program; sequential consistency (GIL); pre-emption bound 2-3 quick; any threading.Lock/RLock attribute of the instance is replaced by a model lock"),
 
  "C18": dict(engine="E5 domain + E2 state", cat="exploration", ref="6 C18",
    technique="exhaustive enumeration of a finite input lattice (attempt x previous delay x parameters x owned random draw) against exact rational envelopes; explicit-state BFS over histories of the real AdaptiveStrategy",
